@@ -11,7 +11,7 @@ META = {
         'quick': 'K<=2 mentions over 12 kinds x 5 names, values 1..2 chars (code points <256, no line breaks); 14 option '
                  'sets (quotes, compactBoolean, reverseAttributes, selfClosingStyle, attributeCase, jsx, vue, custom '
                  'markup.attributes, and the pairs case+mapping, case+jsx, mapping+jsx, compact+case, reverse+quotes); one mention of every kind on an element repeated by `*2` (on itself, a group, its parent); '
-                 'char level: quoted / unquoted / shorthand value of <=2 chars',
+                 '9 values with nested brackets in 4 value forms; char level: quoted / unquoted / shorthand value of <=2 chars',
         'thorough': 'K<=3 mentions; char level <=3 chars',
     },
     'outside_claim': ['duplicates that mix expression, boolean or implied mentions with plain ones (the property does not '
@@ -266,6 +266,34 @@ def mk_chars(form, n, lo=0, hi=128):
                           'parser.attribute', 'convert.convert_attribute']}
 
 
+BRACKETED = ['x[1]', 'x[[1]]', 'f(a(b))', 'x(y)z', 'a(b)[c]', '(a)', '[[a][b]]', 'f(g(h(1)))', 'a[b(c[d])]']
+
+
+def mk_bracketed():
+    """values with nested brackets (concrete pool, solver-chosen index) unquoted, quoted and as expression"""
+    import emmet
+    from vf.pipe import make_config
+    user = {'options': {'output.format': False}}
+
+    def harness(wrong):
+        def h(i: int, form: int, rep: bool):
+            if not (0 <= i < len(BRACKETED) and 0 <= form <= 3):
+                return 'skip'
+            v = BRACKETED[i]
+            abbr = ['ex[a=%s]', 'ex[a="%s"]', "ex[a='%s' b]", 'ex[a={%s}]'][form] % v
+            exp = ['<ex a="%s"></ex>', '<ex a="%s"></ex>', '<ex a="%s" b=""></ex>', '<ex a={%s}></ex>'][form] % v
+            if rep:
+                abbr, exp = abbr + '*2', exp + exp
+            if wrong:
+                exp += ' '
+            out = emmet.expand(abbr, make_config(user))
+            return True if out == exp else 'bracketed_value_not_verbatim:' + abbr
+        return h
+    return {'fn': harness(False), 'twin': harness(True), 'witnesses': [dict(i=0, form=0, rep=False), dict(i=2, form=1, rep=True)],
+            'assumptions': ['value from %r (solver-chosen), written unquoted, double-quoted, single-quoted or as {expression}; element plain or `*2`' % BRACKETED],
+            'functions': ['abbreviation.parser.literal (bracket depth per kind)', 'abbreviation.stringify.Bracket', 'convert.convert_attribute']}
+
+
 def jobs(tier):
     q = tier == 'quick'
     K = 2 if q else 3
@@ -287,6 +315,7 @@ def jobs(tier):
         out.append(Job('C03-c/repeated/K=%d,k1=%d' % (1 if q else 2, k1), 'vf.props.c03:mk_merge',
                        dict(K=1 if q else 2, optset='default', syntax='html', k1fix=k1, reps=True), shape='H',
                        bound='%d mentions on a repeated element' % (1 if q else 2), budget=900 if q else 3000, weight=60))
+    out.append(Job('C03-b/bracketed', 'vf.props.c03:mk_bracketed', {}, shape='H', bound='9 bracketed values x 4 forms', budget=600, weight=40))
     from vf.props.common import ASCII_PARTS
     for form in ('dq', 'sq', 'raw', 'class', 'id'):
         for (lo, hi) in ASCII_PARTS:
